@@ -26,6 +26,22 @@ TIE_DENY = TIE_DENY + [(f"TieDenyE2E.{n}", "Relay.Tie.Deny") for n in
                        ["genStep_tie", "genRun_tie", "translated_register_refines_cell", "translated_latest_deny_wins", "translated_lists_disjoint"]]
 TIE_TTLCODE = TIE_TTLCODE + [(f"TieTtlCodeE2E.{n}", "Relay.Tie.TtlCode") for n in
                              ["genStep_tie", "genRun_tie", "translated_code_exchanged_at_most_once", "translated_outputs_are_the_models"]]
+# the hub's event loop (Hub.run's three select cases, Hub.remove) as translated from internal/crossbar: exact characterisation of who is
+# sent a message / dropped / closed, for every iteration order (w.ordP) and every choice of full queues (w.ready), the invariant over all
+# event histories, and the refinement to the hand-written hub model (Relay/Model/Hub.lean) the hub property theorems are about
+TIE_HUB = [(f"TieHub.{n}", "Relay.Tie.Hub") for n in
+           ["register_filed", "register_wf", "register_dcs", "remove_filed", "remove_wf", "remove_closes", "remove_idempotent_close", "unregister_eq",
+            "broadcast_out", "broadcast_only_same_topic_not_self", "broadcast_reaches_every_ready_target", "broadcast_at_most_once",
+            "broadcast_count_le_one", "broadcast_filed", "broadcast_wf", "broadcast_closes_each_evicted_once", "broadcast_closes_exactly",
+            "sentTo_slow_disjoint", "reachable_wf", "sim_empty", "sim_register", "sim_remove", "sim_unregister", "sim_broadcast", "coverage"]]
+TIE_HUB_NOTE = ("HUB TRANSLATION: the three cases of Hub.run's select and Hub.remove (internal/crossbar) are translated to Lean on every run "
+                "(Relay/Extracted/GenCrossbar.lean) and proved, for every map iteration order and every choice of which send queues are full, to send a "
+                "message exactly once to exactly the other members filed under the sender's topic that have room, to drop exactly the ones that have not "
+                "(closing each send channel once), and to refine the hand-written hub model step by step (Relay/Tie/Hub.lean: sim_register / "
+                "sim_remove / sim_broadcast). ")
 TIE_NOTE = ("TRANSLATOR TIE: internal/deny, internal/ttlcode, internal/chanmap, the scope / required-claims decisions, the session handler and the four admin handlers of internal/access, and internal/permission are translated to Lean on every run and proved, for all states, arguments and map "
             "iteration orders, to be the store models this property's model builds on (Relay/Tie/*.lean). ")
 TIE_ASSUMPTION = "translator vocabulary (Relay/Base/GoLite.lean): int64 as unbounded Int, pointer receiver as threaded value, mutex calls are not data (lock discipline: C12)"
+TIE_HUB_ASSUMPTION = ("hub translation vocabulary: a *Client is its field values plus an identity (addr__); whether a non-blocking send goes through is the "
+                      "environment's choice (w.ready), tied to the model queue's hasRoom by hypothesis `hag` of sim_broadcast; the select in Hub.run takes one "
+                      "case at a time (Go semantics of a single goroutine); h.dcs is non-nil (set by SetDenyChannelStore before run starts)")
